@@ -869,6 +869,13 @@ func rulePAIR4(w *World) []Ob {
 			l.bad(fid, construct, p.InstrPos(vcall), "the first call is "+calleeString(vcall.Common())+", which "+why, "validate-first")
 			continue
 		}
+		// the validator's error: the call itself, or its last result when it also hands back something (a config)
+		var verr ssa.Value = vcall
+		if n := vcall.Common().Signature().Results().Len(); n > 1 {
+			if ex := siblingExtract(vcall, n-1); ex != nil {
+				verr = ex
+			}
+		}
 		// every other call lies on the nil side, except handing the error over on the non-nil side
 		bad := ""
 		allInstrs(body, func(in ssa.Instruction) {
@@ -876,12 +883,12 @@ func rulePAIR4(w *World) []Ob {
 			if !ok || in == ssa.Instruction(vcall) {
 				return
 			}
-			if guardedNil(vcall, in) {
+			if guardedNil(verr, in) {
 				return
 			}
 			// non-nil side: only yield(nil, err)
 			for _, a := range ci.Common().Args {
-				if a == ssa.Value(vcall) {
+				if a == verr {
 					return
 				}
 			}
@@ -893,7 +900,7 @@ func rulePAIR4(w *World) []Ob {
 		})
 		// the error is returned / yielded unchanged
 		c := &consumption{}
-		consumeError(p, vcall, map[ssa.Value]bool{}, c)
+		consumeError(p, verr, map[ssa.Value]bool{}, c)
 		if bad != "" {
 			l.bad(fid, construct, p.InstrPos(vcall), bad, "validate-first")
 		} else if !c.consumed {
